@@ -321,11 +321,11 @@ ENTRIES = {
 
 # Sentences appended to level_claimed.text after the checks were widened (seeded-change rounds, DESIGN 11.4)
 ADDENDA = {
-    "C01": "The converse direction also runs every bracket type alone and every ordered pair of types (nested and crossing). Multi-strand texts use higher bracket types and strands that begin with a closing bracket.",
+    "C01": "The converse direction also runs every bracket type alone and every ordered pair of types (nested and crossing). Multi-strand texts use higher bracket types and strands that begin with a closing bracket. Every seventh sequence carries placeholders and letters beyond ACGU (?, N, n, X, T, t) through the BPSEQ text round trip.",
     "C02": "Gen_StemFamily adds the stem-level family: every chord diagram of <= 4 (thorough 5) stems x a stem-length palette, and "
            "stars in which one stem is crossed by 10-16 others (optimality by brute force where feasible, stability always). MC_SecStruct proves lemma L7 (no swap of two levels of a component improves a MILP-optimal assignment) and the trace clause NoSwapImproves applies it to every recorded assignment, including 30-32 stem stars.",
     "C03": "Structure variants also include base-only residues, residues that differ only by insertion code, residues listed in two "
-           "blocks, and threshold probes at three scales (delta, delta/6, delta/60). Zero-occupancy base atoms, chains with longer names, and the DNA structure 6RS3 are among the quick inputs.",
+           "blocks, and threshold probes at three scales (delta, delta/6, delta/60). Zero-occupancy base atoms, chains with longer names, and the DNA structure 6RS3 are among the quick inputs. Clause ContactTablesConform: the implementation's donor / acceptor / edge tables, as data, equal the tables of Annot.tla by which every measured contact is classified; variants zeronum and noring apply.",
     "C04": "Same widened variants and three-scale probes as C03.",
     "C05": "Presentation.tla also has InsertCodes (order-preserving renumbering that introduces insertion codes); some bases carry "
            "unresolvable residue names so that base letters are detected from atoms; quick draws 140 behaviours. Every behaviour is extended by the format switches enabled at its end; a base with legacy atom names is included; presentations PDB cannot carry are marked undeliverable by the spec. Presentation.tla has the variable records / action ToggleRecords: a text format with and without the records that describe the polymer (MODRES; entity, entity_poly with the canonical sequence, pdbx_struct_mod_residue) must give the same annotation; one base carries 4-thiouridines.",
@@ -337,9 +337,9 @@ ADDENDA = {
            "TER column defect), model numbering from 0 and serials that end exactly at the limit (always through the splitter).",
     "C10": "Also: a 99 984-atom table with interleaved chains (serials run out during renumbering), row selections made after parsing, "
            "label_* names differing from the author names, and two-model files of which only one model exceeds the limits "
-           "(one trace case per model through splitter.main). Residues distinguished only by insertion codes at the 9999/10000 boundary are included; read-back of occupancy/B tolerates the 0.01 of the PDB columns. Half of the row selections are made after the caller asked can_write_pdb about the whole table; multi-model tables whose models are not congruent are generated.",
+           "(one trace case per model through splitter.main). Residues distinguished only by insertion codes at the 9999/10000 boundary are included; read-back of occupancy/B tolerates the 0.01 of the PDB columns. Half of the row selections are made after the caller asked can_write_pdb about the whole table; multi-model tables whose models are not congruent are generated. unifier.main --format PDB (an observation point of the property) is run on pairs of mmCIF files that need fitting, one trace case per file.",
     "C11": "Synthetic placements include three donors of one base in contact with one phosphate; the C03 variants (insertion codes, "
-           "split residues, base-only residues) apply. Variants zeronum (a residue numbered 0 inside every chain) and noring (bases without the ring atoms behind the base-phosphate class); interactions touching a residue handed over in two blocks are judged for well-formedness and contact only.",
+           "split residues, base-only residues) apply. Variants zeronum (a residue numbered 0 inside every chain) and noring (bases without the ring atoms behind the base-phosphate class); interactions touching a residue handed over in two blocks are judged for well-formedness and contact only. ContactTablesConform as in C03.",
     "C12": "A tenth operation, convert_to_dot_bracket(None), is part of the specification and of every history family; every second "
            "history runs after an unrelated sibling object (same pairs, other sequence and length) was solved in the same process; "
            "structures with 5 and 6 mutually crossing stems are included. Sequences carry letters beyond ACGU.",
